@@ -407,7 +407,9 @@ def _tree_ctx_elements(kinds):
 
 def adder_cases(tier):
     # contexts for a shape tree: after the two mandatory heads; siblings PowerPoint may write
-    tree_ctxs = [["extLst"], ["sp", "extLst"], ["contentPart", "extLst"], ["pic", "grpSp", "extLst"], []]
+    # "#comment" / "#pi": a comment or processing instruction after the last element (valid XML spelled differently)
+    tree_ctxs = [["extLst"], ["sp", "extLst"], ["contentPart", "extLst"], ["pic", "grpSp", "extLst"], [],
+                 ["extLst", "#comment"], ["sp", "extLst", "#pi"], ["sp", "#comment"]]
     for container in ("spTree", "grpSp", "nested-grpSp"):
         for ctx in tree_ctxs:
             for ad in SHAPE_ADDERS:
@@ -443,6 +445,10 @@ def adder_cases(tier):
         for ctx in ("none", "bgPr-noFill", "bgPr-solid", "bgRef", "bgRef-bwMode"):
             for ad in ("background_fill_access", "background_fill_solid", "background_fill_none"):
                 yield {"b": "bg", "host": host, "ctx": ctx, "adder": ad}
+    # chart / axis titles whose text is linked to a worksheet cell (c:tx/c:strRef, as PowerPoint and Excel write it)
+    for which in ("chart", "category_axis", "value_axis"):
+        for ad in ("text_frame", "has_text_frame_true", "has_text_frame_false", "text"):
+            yield {"b": "title", "which": which, "adder": ad, "ctx": ["strRef"]}
     # timing subtrees for add_movie: p:timing with/without tnLst, bldLst, extLst
     for comb in (["tnLst"], ["bldLst"], ["tnLst", "bldLst"], ["tnLst", "bldLst", "extLst"], ["extLst"], []):
         yield {"b": "timing", "ctx": comb, "adder": "add_movie"}
@@ -475,6 +481,10 @@ def check_adder(case):
                 _do_shape_adder(shapes, "add_picture", slide)
             elif k == "grpSp":
                 _do_shape_adder(shapes, "add_group_shape", slide)
+            elif k == "#comment":
+                tree.append(etree.Comment(" written by another producer "))
+            elif k == "#pi":
+                tree.append(etree.ProcessingInstruction("verif", "x"))
             elif k == "contentPart":
                 if case["container"] != "spTree":
                     return "ctx-n/a"  # group extents are not defined over ink content parts
@@ -605,6 +615,48 @@ def check_adder(case):
         after = _seq(body)
         if not model.accepts(after):
             raise Violation(key + ":order", "%s on <p:txBody> [%s] gave [%s]" % (case["adder"], _fmt(before), _fmt(after)))
+        return "ok"
+    if b == "title":
+        NS_C = "http://schemas.openxmlformats.org/drawingml/2006/chart"
+        from pptx.chart.data import CategoryChartData
+        from pptx.enum.chart import XL_CHART_TYPE
+        cd = CategoryChartData()
+        cd.categories = ["a", "b"]
+        cd.add_series("s", (1, 2))
+        chart = slide.shapes.add_chart(XL_CHART_TYPE.COLUMN_CLUSTERED, 0, 0, 3000000, 2000000, cd).chart
+        owner = chart if case["which"] == "chart" else getattr(chart, case["which"])
+        owner.has_title = True
+        t = (owner.chart_title if case["which"] == "chart" else owner.axis_title)
+        title = t._element
+        for old in title.findall("{%s}tx" % NS_C):
+            title.remove(old)
+        title.insert(0, parse_xml(
+            '<c:tx xmlns:c="%s"><c:strRef><c:f>Sheet1!$A$1</c:f><c:strCache><c:ptCount val="1"/><c:pt idx="0"><c:v>T</c:v>'
+            '</c:pt></c:strCache></c:strRef></c:tx>' % NS_C))
+        before = _seq(title)
+        t = (owner.chart_title if case["which"] == "chart" else owner.axis_title)
+        try:
+            ad = case["adder"]
+            if ad == "text_frame":
+                t.text_frame
+            elif ad == "has_text_frame_true":
+                t.has_text_frame = True
+            elif ad == "has_text_frame_false":
+                t.has_text_frame = False
+            else:
+                t.text_frame.text = "literal"
+        except Exception as e:
+            raise Violation(key + ":raises=%s" % type(e).__name__, "%s on a cell-linked %s title raised %r"
+                            % (case["adder"], case["which"], e))
+        after = _seq(title)
+        if not _model((NS_C, "CT_Title")).accepts(after) or after.count((NS_C, "tx")) > 1:
+            raise Violation(key + ":count-tx", "%s on a cell-linked %s title: <c:title> [%s] became [%s]"
+                            % (case["adder"], case["which"], _fmt(before), _fmt(after)))
+        for tx in title.findall("{%s}tx" % NS_C):
+            kids = _seq(tx)
+            if len(kids) != 1:
+                raise Violation(key + ":choice-tx", "%s on a cell-linked %s title gave <c:tx> [%s]"
+                                % (case["adder"], case["which"], _fmt(kids)))
         return "ok"
     if b == "bg":
         obj = {"slide": slide, "layout": slide.slide_layout, "master": slide.slide_layout.slide_master}[case["host"]]
